@@ -74,8 +74,11 @@ impl Database for SledDB {
     }
 
     fn load(config: Self::Config) -> PmtreeResult<Self> {
-        let db = match config.open() {
-            Ok(db) => db,
+        // The storage lock may still be held for a moment by a handle which is being dropped:
+        // we wait for it as `new` does, otherwise the caller would fall back to creating (and
+        // thereby re-initialising) a database that already exists.
+        let db = match Self::new_with_tries(config.clone(), 0) {
+            Ok(db) => db.0,
             Err(e) => {
                 return Err(PmtreeErrorKind::DatabaseError(
                     DatabaseErrorKind::CustomError(format!("Cannot load database: {e}")),
